@@ -435,6 +435,40 @@ func propParseExpr(args []string) string {
 			return fmt.Sprintf("%q groups as %s, the five precedence levels give %s", text, got, want)
 		}
 	}
+	return propExprRoundTrip(text, params, e)
+}
+
+// propParseChain (C01): only the grouping half of propParseExpr — operator chains group as the
+// five precedence levels say — without the print → parse half (which belongs to C02/C03).
+func propParseChain(args []string) string {
+	text, err := decStr(args[0])
+	if err != nil {
+		return "skip"
+	}
+	params, err := decParams(args[1])
+	if err != nil {
+		return "skip"
+	}
+	ops, ok := simpleChain(text)
+	if !ok || len(ops) == 0 {
+		return "skip"
+	}
+	e, perr := parseExprWith(text, params)
+	if perr != nil {
+		if isOracleError(perr) {
+			return "skip"
+		}
+		return fmt.Sprintf("well-formed operator chain %q rejected: %v", text, perr)
+	}
+	want := refShape(refParse(ops))
+	c := 0
+	if got := implShape(e, &c, map[influxql.Expr]bool{}); got != want {
+		return fmt.Sprintf("%q groups as %s, the five precedence levels give %s", text, got, want)
+	}
+	return ""
+}
+
+func propExprRoundTrip(text string, params map[string]interface{}, e influxql.Expr) string {
 	// print → parse (texts without bound parameters: what was written is what is printed)
 	if len(params) > 0 {
 		return ""
@@ -500,6 +534,9 @@ func knownParseExpr(args []string) string {
 }
 
 func init() {
+	register(&stream{name: "parse.chain", gen: genParseExpr, impl: implParseExpr, prop: propParseChain,
+		class:      func(args []string, out string) string { return out[:2] },
+		nontrivial: func(args []string, out string) bool { return strings.Count(args[0], ",") >= 3 }})
 	register(&stream{name: "parse.expr", gen: genParseExpr, impl: implParseExpr, prop: propParseExpr, known: knownParseExpr,
 		class: func(args []string, out string) string {
 			switch {
